@@ -2,7 +2,7 @@
 """Regression over the seeded breaking changes: each /verif/seeded/<id>/patch.diff is applied to a scratch copy of
 /repo (pysmi/ and scripts/ only, under $TMPDIR, removed afterwards) and the checks are run against it.
 
-  selftest/seeds.py [--all-checks] [id ...]
+  selftest/seeds.py [--all-checks] [--update-meta] [id ...]
 
 By default only the check of the property the seed was written for is run; --all-checks runs all twenty.
 Exit status 0 = every seed is reported (VIOLATION) by the check of its own property, 1 otherwise.
@@ -49,7 +49,7 @@ def run(sid, all_checks):
 def main(argv):
     all_checks = '--all-checks' in argv
     ids = [a for a in argv if not a.startswith('--')] or sorted(os.listdir(os.path.join(HERE, 'seeded')))
-    ids = [i for i in ids if os.path.isdir(os.path.join(HERE, 'seeded', i))]
+    ids = [i for i in ids if os.path.isdir(os.path.join(HERE, 'seeded', i)) and not i.startswith('_')]
     missed = 0
     with ThreadPoolExecutor(max_workers=8) as ex:
         for sid, prop, fired, err in ex.map(lambda s: run(s, all_checks), ids):
@@ -58,6 +58,13 @@ def main(argv):
                 missed += 1
                 continue
             own = fired.get(prop, (0, []))[0] == 1
+            if '--update-meta' in argv and all_checks:
+                mp = os.path.join(HERE, 'seeded', sid, 'meta.json')
+                m = json.load(open(mp))
+                m['detected_by'] = dict((p, rep) for p, (rc, rep) in sorted(fired.items()) if rc == 1)
+                m['analysis_errors'] = dict((p, rep) for p, (rc, rep) in sorted(fired.items()) if rc == 2)
+                m['detected_by_own_property_check'] = own
+                json.dump(m, open(mp, 'w'), indent=1)
             others = sorted(p for p, (rc, _) in fired.items() if rc == 1 and p != prop)
             errs = sorted(p for p, (rc, _) in fired.items() if rc == 2)
             if not own:
